@@ -124,5 +124,78 @@ def asym_clb (Phi : K → K) (t shiftSB shiftB : K) : K :=
 def asym_cls (Phi : K → K) (t shiftSB shiftB : K) : K :=
   ((Phi (((-(t - shiftSB)) - (0.0 : K)) / (1.0 : K))) / (Phi (((-(t - shiftB)) - (0.0 : K)) / (1.0 : K))))
 
+/-- `infer/__init__.py::hypotest` (source sha256 472d23221d578cb9…): the returned pieces, each as the list of the calculator quantities it
+holds, for every combination of the four `return_*` flags and q0 / not q0 (obtained by running `hypotest` with a symbolic calculator) -/
+def hypotest_returns (tailProbs expected expectedSet calculator isQ0 : Bool) : List (List String) :=
+  match tailProbs, expected, expectedSet, calculator, isQ0 with
+  | false, false, false, false, false => [["CLs"]]
+  | false, false, false, true, false => [["CLs"], ["calculator"]]
+  | false, false, true, false, false => [["CLs"], ["CLs_exp0", "CLs_exp1", "CLs_exp2", "CLs_exp3", "CLs_exp4"]]
+  | false, false, true, true, false => [["CLs"], ["CLs_exp0", "CLs_exp1", "CLs_exp2", "CLs_exp3", "CLs_exp4"], ["calculator"]]
+  | false, true, false, false, false => [["CLs"], ["CLs_exp2"]]
+  | false, true, false, true, false => [["CLs"], ["CLs_exp2"], ["calculator"]]
+  | false, true, true, false, false => [["CLs"], ["CLs_exp2"], ["CLs_exp0", "CLs_exp1", "CLs_exp2", "CLs_exp3", "CLs_exp4"]]
+  | false, true, true, true, false => [["CLs"], ["CLs_exp2"], ["CLs_exp0", "CLs_exp1", "CLs_exp2", "CLs_exp3", "CLs_exp4"], ["calculator"]]
+  | true, false, false, false, false => [["CLs"], ["CLsb", "CLb"]]
+  | true, false, false, true, false => [["CLs"], ["CLsb", "CLb"], ["calculator"]]
+  | true, false, true, false, false => [["CLs"], ["CLsb", "CLb"], ["CLs_exp0", "CLs_exp1", "CLs_exp2", "CLs_exp3", "CLs_exp4"]]
+  | true, false, true, true, false => [["CLs"], ["CLsb", "CLb"], ["CLs_exp0", "CLs_exp1", "CLs_exp2", "CLs_exp3", "CLs_exp4"], ["calculator"]]
+  | true, true, false, false, false => [["CLs"], ["CLsb", "CLb"], ["CLs_exp2"]]
+  | true, true, false, true, false => [["CLs"], ["CLsb", "CLb"], ["CLs_exp2"], ["calculator"]]
+  | true, true, true, false, false => [["CLs"], ["CLsb", "CLb"], ["CLs_exp2"], ["CLs_exp0", "CLs_exp1", "CLs_exp2", "CLs_exp3", "CLs_exp4"]]
+  | true, true, true, true, false => [["CLs"], ["CLsb", "CLb"], ["CLs_exp2"], ["CLs_exp0", "CLs_exp1", "CLs_exp2", "CLs_exp3", "CLs_exp4"], ["calculator"]]
+  | false, false, false, false, true => [["CLsb"]]
+  | false, false, false, true, true => [["CLsb"], ["calculator"]]
+  | false, false, true, false, true => [["CLsb"], ["CLsb_exp0", "CLsb_exp1", "CLsb_exp2", "CLsb_exp3", "CLsb_exp4"]]
+  | false, false, true, true, true => [["CLsb"], ["CLsb_exp0", "CLsb_exp1", "CLsb_exp2", "CLsb_exp3", "CLsb_exp4"], ["calculator"]]
+  | false, true, false, false, true => [["CLsb"], ["CLsb_exp2"]]
+  | false, true, false, true, true => [["CLsb"], ["CLsb_exp2"], ["calculator"]]
+  | false, true, true, false, true => [["CLsb"], ["CLsb_exp2"], ["CLsb_exp0", "CLsb_exp1", "CLsb_exp2", "CLsb_exp3", "CLsb_exp4"]]
+  | false, true, true, true, true => [["CLsb"], ["CLsb_exp2"], ["CLsb_exp0", "CLsb_exp1", "CLsb_exp2", "CLsb_exp3", "CLsb_exp4"], ["calculator"]]
+  | true, false, false, false, true => [["CLsb"], ["CLb"]]
+  | true, false, false, true, true => [["CLsb"], ["CLb"], ["calculator"]]
+  | true, false, true, false, true => [["CLsb"], ["CLb"], ["CLsb_exp0", "CLsb_exp1", "CLsb_exp2", "CLsb_exp3", "CLsb_exp4"]]
+  | true, false, true, true, true => [["CLsb"], ["CLb"], ["CLsb_exp0", "CLsb_exp1", "CLsb_exp2", "CLsb_exp3", "CLsb_exp4"], ["calculator"]]
+  | true, true, false, false, true => [["CLsb"], ["CLb"], ["CLsb_exp2"]]
+  | true, true, false, true, true => [["CLsb"], ["CLb"], ["CLsb_exp2"], ["calculator"]]
+  | true, true, true, false, true => [["CLsb"], ["CLb"], ["CLsb_exp2"], ["CLsb_exp0", "CLsb_exp1", "CLsb_exp2", "CLsb_exp3", "CLsb_exp4"]]
+  | true, true, true, true, true => [["CLsb"], ["CLb"], ["CLsb_exp2"], ["CLsb_exp0", "CLsb_exp1", "CLsb_exp2", "CLsb_exp3", "CLsb_exp4"], ["calculator"]]
+
+/-- is the result a bare value (not a tuple)? -/
+def hypotest_bare (tailProbs expected expectedSet calculator isQ0 : Bool) : Bool :=
+  match tailProbs, expected, expectedSet, calculator, isQ0 with
+  | false, false, false, false, false => true
+  | false, false, false, true, false => false
+  | false, false, true, false, false => false
+  | false, false, true, true, false => false
+  | false, true, false, false, false => false
+  | false, true, false, true, false => false
+  | false, true, true, false, false => false
+  | false, true, true, true, false => false
+  | true, false, false, false, false => false
+  | true, false, false, true, false => false
+  | true, false, true, false, false => false
+  | true, false, true, true, false => false
+  | true, true, false, false, false => false
+  | true, true, false, true, false => false
+  | true, true, true, false, false => false
+  | true, true, true, true, false => false
+  | false, false, false, false, true => true
+  | false, false, false, true, true => false
+  | false, false, true, false, true => false
+  | false, false, true, true, true => false
+  | false, true, false, false, true => false
+  | false, true, false, true, true => false
+  | false, true, true, false, true => false
+  | false, true, true, true, true => false
+  | true, false, false, false, true => false
+  | true, false, false, true, true => false
+  | true, false, true, false, true => false
+  | true, false, true, true, true => false
+  | true, true, false, false, true => false
+  | true, true, false, true, true => false
+  | true, true, true, false, true => false
+  | true, true, true, true, true => false
+
 end
 end Pyhf.Gen
